@@ -710,3 +710,36 @@ def inline_all(facts, v, depth=3, stop=(), _seen=None, only=None):
             return ('update', go(x[1], d), {p: go(y, d) for p, y in x[2].items()})
         return x
     return go(v, depth)
+
+
+def resolve_mut(facts, v, depth=2):
+    """`X after having been passed by &mut to local function h(..)`: replace the outermost ('mut', X, [h]) by the value h leaves
+    behind its &mut parameter (h's own writes as an update of X, h's parameters replaced by the call's arguments).  Unresolvable
+    nodes are returned unchanged."""
+    if depth <= 0 or v[0] != 'mut':
+        return v
+    base = resolve_mut(facts, v[1], depth)
+    vias = v[2]
+    path = v[3] if len(v) > 3 else ()
+    if path or len(vias) != 1 or vias[0][0] != 'callref' or not vias[0][1].get('local'):
+        return ('mut', base, vias, path)
+    h = facts.fn(vias[0][1].get('path') or '')
+    site = vias[0][2] if len(vias[0]) > 2 else None
+    if h is None or site is None or h.cfg.sccs():
+        return ('mut', base, vias, path)
+    ks = [i + 1 for i, inp in enumerate(h.j.get('inputs') or []) if inp.get('k') == 'refmut']
+    caller = facts.fn(site[0])
+    if len(ks) != 1 or caller is None:
+        return ('mut', base, vias, path)
+    k = ks[0]
+    args = prov_of(caller).call_args(site[1])
+    PH = prov_of(h)
+    vals = []
+    for r in h.cfg.returns:
+        vals.append(PH.local(k, r, len(h.blocks[r]['s'])))
+    if not vals:
+        return ('mut', base, vias, path)
+    params = {i + 1: a for i, a in enumerate(args)}
+    params[k] = base
+    out = subst(phi(vals), params)
+    return resolve_mut(facts, out, depth - 1) if out[0] == 'mut' else out
